@@ -63,6 +63,9 @@ func (c *rangeCase) operands() (decl, rng, gs, ge, gk string) {
 	s, e, k := strconv.Itoa(c.S), strconv.Itoa(c.E), strconv.Itoa(c.K)
 	gs, ge, gk = "0", e, "1" // Go expansion: the values the documentation assigns to omitted operands
 	switch c.Form {
+	case "hex", "oct", "bin", "us": // other spellings of the same integer literals
+		s, e, k = spell(c.Form, c.S), spell(c.Form, c.E), spell(c.Form, c.K)
+		fallthrough
 	case "lit":
 		if c.HasS {
 			rng, gs = s, s
@@ -99,6 +102,25 @@ func (c *rangeCase) operands() (decl, rng, gs, ge, gk string) {
 		}
 	}
 	return
+}
+
+// spell writes n as an integer literal in the given spelling (the sign is a unary minus, as in the source)
+func spell(form string, n int) string {
+	sign, m := "", n
+	if n < 0 {
+		sign, m = "-", -n
+	}
+	switch form {
+	case "hex":
+		return sign + "0x" + strconv.FormatInt(int64(m), 16)
+	case "oct":
+		return sign + "0o" + strconv.FormatInt(int64(m), 8)
+	case "bin":
+		return sign + "0b" + strconv.FormatInt(int64(m), 2)
+	case "us":
+		return sign + "0_" + strconv.FormatInt(int64(m), 8) // digit separator (legacy octal, values < 8)
+	}
+	return strconv.Itoa(n)
 }
 
 func (c *rangeCase) render(idx int) unit {
@@ -233,7 +255,7 @@ func (c *rangeCase) sigPrefix() string {
 			sign = "negative"
 		}
 		kind := "computed"
-		if c.Form == "lit" {
+		if c.Form != "var" && c.Form != "call" {
 			kind = "literal"
 		}
 		step = sign + "-" + kind + "-step"
